@@ -472,6 +472,7 @@ def _eval_call (repo, module, e, env, cls):
   if isinstance(fn, ast.Name) and not e.keywords:
     args = [eval_env2(repo, module, a, env, cls) for a in e.args]
     if fn.id == 'len' and len(args) == 1: return len(args[0])
+    if fn.id in ('set', 'list', 'dict', 'tuple') and not args: return {'set': set, 'list': list, 'dict': dict, 'tuple': tuple}[fn.id]()
     if fn.id == 'type' and len(args) == 1: return type(args[0])
     if fn.id == 'isinstance' and len(args) == 2: return isinstance(args[0], args[1])
     if fn.id == 'bool' and len(args) == 1: return bool(args[0])
@@ -650,16 +651,28 @@ def paths_under (repo, module, g, env, start, stops, cls=None, limit=200, track=
     if track and n.kind == 'stmt' and isinstance(n.ast, (ast.Assign, ast.AugAssign)) and (n is not start or (track_start and len(path) == 1)):
       ne = _assign_env(repo, module, n.ast, e, cls)
     elif track and n.kind == 'stmt' and isinstance(n.ast, ast.Expr) and isinstance(n.ast.value, ast.Call) and isinstance(n.ast.value.func, ast.Attribute) \
-         and n.ast.value.func.attr in ('append', 'extend') and isinstance(n.ast.value.func.value, ast.Name) and len(n.ast.value.args) == 1:
-      # growth of a local list whose value is known
-      nm_ = n.ast.value.func.value.id
+         and n.ast.value.func.attr in ('append', 'extend', 'update', 'difference_update', 'add', 'discard', 'remove') and isinstance(n.ast.value.func.value, ast.Name) and len(n.ast.value.args) == 1:
+      # in-place change of a local list / set whose value is known
+      nm_ = n.ast.value.func.value.id; meth = n.ast.value.func.attr
       cur_ = e.exact.get(nm_)
-      if isinstance(cur_, list):
+      if isinstance(cur_, (list, set)):
         ne = Env(dict(e.exact), list(e.matchers), getattr(e, 'call_hook', None))
         try:
           v_ = eval_env2(repo, module, n.ast.value.args[0], e, cls)
           if v_ is OPAQUE: raise _Unknown()
-          ne.exact[nm_] = cur_ + ([v_] if n.ast.value.func.attr == 'append' else list(v_))
+          if isinstance(cur_, list):
+            if meth == 'append': ne.exact[nm_] = cur_ + [v_]
+            elif meth == 'extend': ne.exact[nm_] = cur_ + list(v_)
+            elif meth == 'remove': c2 = list(cur_); c2.remove(v_); ne.exact[nm_] = c2
+            else: raise _Unknown()
+          else:
+            c2 = set(cur_)
+            if meth == 'update': c2.update(v_)
+            elif meth == 'difference_update': c2.difference_update(v_)
+            elif meth == 'add': c2.add(v_)
+            elif meth in ('discard', 'remove'): c2.discard(v_)
+            else: raise _Unknown()
+            ne.exact[nm_] = c2
         except Exception:
           _kill(ne, nm_)
     for m, l in succ:
